@@ -295,6 +295,13 @@ class SelectShim:
         self.net = net
         self.calls = 0
         self.blocked_calls = 0
+        self.ticks = 0  # pending "timeout expired" wake-ups granted by the driver (the passage of loop periods)
+
+    def _tick(self):
+        if self.ticks > 0:
+            self.ticks -= 1
+            return True
+        return False
 
     def _ready(self, r, w):
         objs = self.net.objs
@@ -308,8 +315,10 @@ class SelectShim:
         rr, ww = self._ready(r, w)
         if not rr and not ww:
             self.blocked_calls += 1
-            sched.block_until(lambda: any(self._ready(r, w)), "select.block")
+            sched.block_until(lambda: any(self._ready(r, w)) or self.ticks > 0, "select.block")
             rr, ww = self._ready(r, w)
+            if not rr and not ww:
+                self._tick()  # the timeout expired: return with nothing ready
         for fd in list(r) + list(w):
             if fd not in self.net.objs or getattr(self.net.objs[fd], "closed", 0):
                 pass
@@ -340,8 +349,10 @@ class SelectShim:
         res = ready()
         if not res:
             self.blocked_calls += 1
-            sched.block_until(lambda: bool(ready()), "poll.block")
+            sched.block_until(lambda: bool(ready()) or self.ticks > 0, "poll.block")
             res = ready()
+            if not res:
+                self._tick()
         return res
 
 
